@@ -111,6 +111,15 @@ where
     let mut m3 = m.clone();
     m3.verts.insert(n);
     differ(o, &a, &D::build(&m3), &format!("{name}(order + 1, same arcs)"));
+    {
+        // same order and same size, one arc moved elsewhere
+        let mut m4 = m.clone();
+        let tail = r.chance(0.5);
+        gen::move_endpoint(r, &mut m4, tail);
+        if m4 != *m {
+            differ(o, &a, &D::build(&m4), &format!("{name}(one arc moved, same order and size)"));
+        }
+    }
     // clone_from into an existing digraph of another order / arc set
     {
         let n2 = match r.below(3) {
@@ -159,8 +168,48 @@ where
     steps != m.size()
 }
 
+/// Clones of digraphs with several thousand vertices (a clone that splits its
+/// work needs more rows than any reasonable threshold).
+fn huge_clone(r: &mut Rng, o: &mut CaseOut) {
+    let n = *r.pick(&[4097usize, 5000, 8191, 10_001]);
+    let mut m = gen::family(r, 4, n);
+    for _ in 0..r.below(5) {
+        let (u, v) = (r.below(n), r.below(n));
+        if u != v {
+            m.add(u, v, 1);
+        }
+    }
+    let al = AdjacencyList::build(&m);
+    let c = al.clone();
+    same(o, &al, &c, "AdjacencyList(clone, several thousand vertices)");
+    observe(&c, &m, o, "AdjacencyList:clone-of-a-big-digraph", false);
+    let mut x = AdjacencyList::empty(3);
+    x.clone_from(&al);
+    same(o, &al, &x, "AdjacencyList(clone_from, several thousand vertices)");
+    let am = AdjacencyMap::build(&m);
+    same(o, &am, &am.clone(), "AdjacencyMap(clone, several thousand vertices)");
+    observe(&am.clone(), &m, o, "AdjacencyMap:clone-of-a-big-digraph", false);
+    let el = EdgeList::build(&m);
+    same(o, &el, &el.clone(), "EdgeList(clone, several thousand vertices)");
+    observe(&el.clone(), &m, o, "EdgeList:clone-of-a-big-digraph", false);
+    let wu = build_w_usize(&m);
+    same(o, &wu, &wu.clone(), "AdjacencyListWeighted(clone, several thousand vertices)");
+    observe(&wu.clone(), &m, o, "AdjacencyListWeighted:clone-of-a-big-digraph", false);
+    o.fp = Fp::new().s("huge_clone").us(n).0;
+    o.nontrivial = true;
+    o.bump("huge_clone");
+    if o.want_desc {
+        o.desc = format!("clone / clone_from of a circuit of order {n} plus a few arcs in four types");
+    }
+}
+
 pub fn case(idx: u64, seed: u64, p: &Params, o: &mut CaseOut) {
     let mut r = Rng::for_case(20, seed, idx);
+    let every = p.u64("huge_every", 20_000);
+    if every > 0 && idx % every == 333 {
+        huge_clone(&mut r, o);
+        return;
+    }
     let max = p.usize("max_order", 40);
     let fam = r.below(gen::FAMILIES.len());
     let n = match r.below(10) {
